@@ -10,8 +10,23 @@ package keeper
 //@ func sum
 //@ requires forall i int :: 0 <= i && i < len(validators) ==> validators[i].Power >= 0
 //@ ensures [def] result == sumPow(validators, len(validators))
+//@ ensures [nonneg] result >= 0
 //@ loop 1 invariant [idx] 0 <= _i && _i <= len(validators)
 //@ loop 1 invariant [acc] s == sumPow(validators, _i)
+//@ loop 1 invariant [nonneg] s >= 0
+
+//@ func NoMoreThanPercentOfTheSum
+//@ requires [powers] forall i int :: 0 <= i && i < len(validators) ==> validators[i].Power >= 0
+//@ requires [total] sumPow(validators, len(validators)) <= MaxTotalVotingPower
+//@ requires [percent] 1 <= percent && percent <= 100
+//@ let total := old(sumPow(validators, len(validators)))
+//@ loop 1 invariant [idx] 0 <= _i && _i <= len(validators)
+//@ loop 1 invariant [count] 0 <= validatorsWithPowerLessThanMaxPower && validatorsWithPowerLessThanMaxPower <= _i
+//@ loop 2 invariant [idx] 0 <= _i && _i <= len(validators) && len(updatedValidators) == len(validators)
+//@ loop 2 invariant [capped] forall j int :: 0 <= j && j < _i ==> updatedValidators[j].Power <= maxPower
+//@ ensures [max-power] maxPower == max(1, ediv(total * percent, 100))
+//@ ensures [len] len(result) == len(validators)
+//@ ensures [capped] forall j int :: 0 <= j && j < len(result) ==> result[j].Power <= maxPower
 
 //@ func Keeper.CapValidatorSet
 //@ ensures [topn] powerShapingParameters.Top_N > 0 ==> len(result) == len(validators)
@@ -493,8 +508,10 @@ package keeper
 //@ ensures [threshold] result1 == nil && psp.0.Top_N > 0 ==> k.GetMinimumPowerInTopN(ctx, consumerId).1 && k.GetMinimumPowerInTopN(ctx, consumerId).0 == m.0 && m.1 == nil
 //@ ensures [threshold-arg] result1 == nil && psp.0.Top_N > 0 ==> $OptInTopNValidators.called && $OptInTopNValidators.minPowerToOptIn == m.0 && $OptInTopNValidators.consumerId == consumerId
 //@ ensures [next-args] result1 == nil ==> $ComputeNextValidators.called && $ComputeNextValidators.consumerId == consumerId && $ComputeNextValidators.powerShapingParameters == psp.0 && $ComputeNextValidators.minPowerToOptIn == (psp.0.Top_N > 0 ? m.0 : 0)
-//@ ensures [stored-args] result1 == nil ==> $SetConsumerValSet.called && $SetConsumerValSet.consumerId == consumerId
-//@ ensures [diff] result1 == nil ==> $DiffValidators.called && result0 == $DiffValidators.ret
+//@ ensures [candidates-bonded] result1 == nil ==> $ComputeNextValidators.called && $ComputeNextValidators.bondedValidators == bondedValidators
+//@ ensures [topn-over-active] result1 == nil && psp.0.Top_N > 0 ==> $OptInTopNValidators.called && $OptInTopNValidators.bondedValidators == activeValidators
+//@ ensures [stored-args] result1 == nil ==> $SetConsumerValSet.called && $SetConsumerValSet.consumerId == consumerId && $SetConsumerValSet.nextValidators == $ComputeNextValidators.ret0
+//@ ensures [diff] result1 == nil ==> $DiffValidators.called && result0 == $DiffValidators.ret && $DiffValidators.currentValidators == currentConsumerValSet && $DiffValidators.nextValidators == $ComputeNextValidators.ret0
 //@ ensures [frame] forall key bytes :: fam(key) != FamMinPower && fam(key) != FamOptedIn && fam(key) != FamValSet ==> S[key] == old(S[key])
 //@ ensures [other-consumers] forall c string, p types.ProviderConsAddress :: c != consumerId ==> S[types.OptedInKey(c, p)] == old(S[types.OptedInKey(c, p)]) && S[types.ConsumerValidatorKey(c, p.ToSdkConsAddr())] == old(S[types.ConsumerValidatorKey(c, p.ToSdkConsAddr())]) && S[types.MinimumPowerInTopNKey(c)] == old(S[types.MinimumPowerInTopNKey(c)])
 //@ ensures [no-deps] E == old(E) && X == old(X)
